@@ -30,6 +30,8 @@ def leaf():
         ("IntU31", "(0..2147483647)"), ("IntI16Hi", "(-1..32767)"), ("IntI16HiP", "(-1..32768)"),
         # extensible with an open end (the attribute is printed with the `max` / `min` keyword)
         ("IntSemiExt", "(5..MAX,...)"), ("IntNegSemiExt", "(-5..MAX,...)"),
+        # extensible without a finite root (no MIN / MAX constant at all)
+        ("IntZeroMaxExt", "(0..MAX,...)"), ("IntMinMaxExt", "(MIN..MAX,...)"),
         # extensible roots at the 32-bit boundaries: the Rust type (u64 / i64) and the protobuf scalar type
         # (uint64 / sint64) do not depend on the root; IntExtI32 has root values with |v| >= 2^30
         ("IntExtU32", "(0..4294967295,...)"), ("IntExtU32P", "(0..4294967296,...)"),
